@@ -132,23 +132,23 @@ impl DeweyVersion {
              * Supported modifiers and their weightings so that they are ordered
              * correctly.
              */
-            if slice.starts_with("alpha") {
+            if starts_with_ignore_case(slice, "alpha") {
                 version.push(-3);
                 idx += 5;
                 continue;
-            } else if slice.starts_with("beta") {
+            } else if starts_with_ignore_case(slice, "beta") {
                 version.push(-2);
                 idx += 4;
                 continue;
-            } else if slice.starts_with("pre") {
+            } else if starts_with_ignore_case(slice, "pre") {
                 version.push(-1);
                 idx += 3;
                 continue;
-            } else if slice.starts_with("rc") {
+            } else if starts_with_ignore_case(slice, "rc") {
                 version.push(-1);
                 idx += 2;
                 continue;
-            } else if slice.starts_with("pl") {
+            } else if starts_with_ignore_case(slice, "pl") {
                 version.push(0);
                 idx += 2;
                 continue;
@@ -156,14 +156,16 @@ impl DeweyVersion {
 
             /*
              * Finally, encode any ASCII alphabetic characters as a 0 followed by
-             * their ASCII code, otherwise completely ignore any non-ASCII
-             * characters, making sure to correctly handle multibyte characters.
+             * the ASCII code of their lower-case form (pkg_install compares
+             * letters case-insensitively), otherwise completely ignore any
+             * non-ASCII characters, making sure to correctly handle multibyte
+             * characters.
              *
              * Reuse "c" from above.
              */
             if c.is_ascii_alphabetic() {
                 version.push(0);
-                version.push(c as i64);
+                version.push(c.to_ascii_lowercase() as i64);
                 idx += 1;
             } else {
                 idx += c.len_utf8();
@@ -175,6 +177,16 @@ impl DeweyVersion {
             pkgrevision,
         }
     }
+}
+
+/**
+ * Whether `s` starts with the ASCII word `prefix`, ignoring ASCII case, as
+ * pkg_install's strncasecmp() test for version modifiers does.
+ */
+fn starts_with_ignore_case(s: &str, prefix: &str) -> bool {
+    s.as_bytes()
+        .get(..prefix.len())
+        .is_some_and(|b| b.eq_ignore_ascii_case(prefix.as_bytes()))
 }
 
 /**
